@@ -88,6 +88,8 @@ VARIANTS = {
     "tsan": ("clang", ["-O1", "-g", "-fno-omit-frame-pointer", "-fsanitize=thread", "-D" + GUARD,
                        "-include", os.path.join(VERIF, "mc/vs_redirect.h")],
              ["-fsanitize=thread"]),
+    "msan": ("clang", ["-O1", "-g", "-fno-omit-frame-pointer", "-fsanitize=memory", "-fsanitize-memory-track-origins=1", "-D" + GUARD],
+             ["-fsanitize=memory"]),
     "tsanfree": ("clang", ["-O1", "-g", "-fno-omit-frame-pointer", "-fsanitize=thread", "-D" + GUARD],
                  ["-fsanitize=thread"]),
 }
@@ -299,7 +301,8 @@ def run_procs(cmds, timeout=None, env=None, jobs=None, pin=False):
 
 
 SAN_ENV = {"ASAN_OPTIONS": "detect_leaks=0:abort_on_error=1:allocator_may_return_null=1:handle_abort=0",
-           "UBSAN_OPTIONS": "print_stacktrace=1:halt_on_error=1"}
+           "UBSAN_OPTIONS": "print_stacktrace=1:halt_on_error=1",
+           "MSAN_OPTIONS": "abort_on_error=1:handle_abort=0"}
 
 
 class Check:
@@ -391,11 +394,11 @@ class Check:
                 last_case = m.group(1)
             tail = (err or "")[-1500:]
             sig = ""
-            m2 = re.search(r"(ERROR: AddressSanitizer: [\w-]+|runtime error: [^\n]{0,120}|Assertion `[^']*' failed|DEADLOCK[^\n]*|LIVELOCK[^\n]*|WATCHDOG[^\n]*|WARNING: ThreadSanitizer: [\w -]+)", err or "")
+            m2 = re.search(r"(ERROR: AddressSanitizer: [\w-]+|runtime error: [^\n]{0,120}|Assertion `[^']*' failed|DEADLOCK[^\n]*|LIVELOCK[^\n]*|WATCHDOG[^\n]*|WARNING: ThreadSanitizer: [\w -]+|WARNING: MemorySanitizer: [\w-]+)", err or "")
             if m2:
-                sig = m2.group(1)
+                sig = re.sub(r"0x[0-9a-fA-F]+", "0xN", m2.group(1))   # addresses differ from run to run
             site = ""
-            m3 = re.search(r"#\d+ 0x[0-9a-f]+ in (\w+) \S*?/(src/(?:liblzma|xz|xzdec|lzmainfo|common)/[\w/.]+):(\d+)", (err or "")[(err or "").find("ERROR:"):] if "ERROR:" in (err or "") else (err or ""))
+            m3 = re.search(r"#\d+ 0x[0-9a-f]+ in (\w+) \S*?/(src/(?:liblzma|xz|xzdec|lzmainfo|common)/[\w/.]+):(\d+)", (err or "")[(err or "").find("ERROR:"):] if "ERROR:" in (err or "") else (err or "")[(err or "").find("MemorySanitizer:"):] if "MemorySanitizer:" in (err or "") else (err or ""))
             if m3:
                 site = f"{m3.group(1)}@{os.path.basename(m3.group(2))}"
             key = "crash:" + label.split("/")[0] + ":" + re.sub(r"\W+", "_", sig)[:60] + ":" + site
